@@ -8,10 +8,15 @@
      mashumaro/core/meta/helpers.py       iter_all_subclasses (l.735-738)
      mashumaro/types.py                   Discriminator.__post_init__
 
-   State  = classes in definition order (class id = position) + one registry (tag -> class) per
-            annotation site / Config root, created empty.
-   Ops    = Define parents own_tags(per key name) tagger_tags own_required_fields | Decode site present_keys present_fields.
-   This file holds only executable definitions (it must keep running when a proof breaks). *)
+   State  = classes in definition order (class id = position) + one registry (tag -> class) per site (one Annotated
+            occurrence: a holder field per call-time dialect, a codec; one per Config root), per nested class-level
+            dispatcher and per codec x nested dispatcher; all created empty.
+   Ops    = Define parents own_tags(per key name) tagger_tags(per tagger function) own_required_fields keyerror_hook
+          | Decode site present_keys(with hashable / unhashable values) present_fields
+          | DecodeSeq [(site, keys, fields)]   (one call of a holder with several discriminated fields)
+          | DecodeBad site                      (the input is not a mapping).
+   One dispatcher function for both modes; entering a class is a leaf (accept / reject / leak KeyError) or a nested
+   dispatcher of either mode.  This file holds only executable definitions (it must keep running when a proof breaks). *)
 From Coq Require Import List Arith Bool.
 Import ListNotations.
 
@@ -20,12 +25,13 @@ Definition tag := nat.
 (* A class as the dispatcher sees it. *)
 Record cls := Cls {
   c_parents : list nat;   (* ids of the direct bases inside the modelled forest, in declaration order *)
-  c_tags    : list (nat * tag);   (* OWN __dict__ of the class: discriminator field name (id) -> tag value; one entry per name at most *)
-  c_ttags   : list tag;   (* result of variant_tagger_fn(cls) (a list registers every element; a bare value = singleton) *)
-  c_req     : list nat    (* all required (default-less) init fields incl. inherited ones: abstract acceptance data *)
+  c_tags    : list (nat * tag);        (* OWN __dict__ of the class: discriminator key name (id) -> tag value; one entry per name at most *)
+  c_ttags   : list (nat * list tag);   (* per tagger function (id): variant_tagger_fn(cls) (a list registers every element; a bare value = singleton) *)
+  c_req     : list nat;   (* all required (default-less) init fields incl. inherited ones: abstract acceptance data *)
+  c_kerr    : bool        (* the class's own or inherited __pre_deserialize__ hook raises KeyError on inputs carrying the marker key *)
 }.
 
-Definition dummy_cls : cls := Cls [] [] [] [].
+Definition dummy_cls : cls := Cls [] [] [] [] false.
 
 Definition memb (x: nat) (l: list nat) : bool := existsb (Nat.eqb x) l.
 
@@ -45,7 +51,8 @@ Fixpoint walk (c: nat) (l: list cls) (i: nat) : list nat :=
 
 Definition all_sub (cl: list cls) (c: nat) : list nat := walk c cl 0.
 
-(* One annotation site (Annotated field of a holder, codec) or one Config root. *)
+(* One annotation site (one Annotated occurrence: a holder field, a codec) or one Config root.
+   A holder with several discriminated fields is several sites. *)
 Record site := Site {
   s_bases  : list nat;   (* the annotated class, or the members of the annotated Union *)
   s_sub    : bool;       (* include_subtypes *)
@@ -54,7 +61,8 @@ Record site := Site {
   s_tagger : bool;       (* variant_tagger_fn is not None *)
   s_config : bool;       (* class-level (Config.discriminator) wiring; then s_bases = [the declaring class] *)
   s_codec  : bool;       (* site of a codec (non-nailed builder): nested class-level registries live on the codec *)
-  s_fid    : nat         (* Discriminator.field: id of the key name (dispatchers of one hierarchy may use different keys) *)
+  s_fid    : nat;        (* Discriminator.field: id of the key name (dispatchers of one hierarchy may use different keys) *)
+  s_tgid   : nat         (* which tagger function (every dispatcher binds its own since /repo 79143aa) *)
 }.
 
 (* builder.py:396-401 rebuilds the Discriminator without include_supertypes *)
@@ -72,14 +80,14 @@ Definition variants (cl: list cls) (s: site) : list nat :=
   ++ (if eff_sup s then s_bases s else []).
 
 (* dict lookup by key name *)
-Fixpoint assoc (f: nat) (l: list (nat * tag)) : option tag :=
+Fixpoint assoc {B} (f: nat) (l: list (nat * B)) : option B :=
   match l with
   | [] => None
   | (g, t) :: r => if Nat.eqb f g then Some t else assoc f r
   end.
 
 Definition tags_of (s: site) (k: cls) : list tag :=
-  if s_tagger s then c_ttags k
+  if s_tagger s then match assoc (s_tgid s) (c_ttags k) with Some l => l | None => [] end
   else match assoc (s_fid s) (c_tags k) with Some t => [t] | None => [] end.
 
 (* registry = Python dict tag -> class; newest binding first, lookup takes the first hit *)
@@ -133,103 +141,141 @@ Definition reset_nested (top: nat) (vs: list nat) (rs: list (rkey * reg)) : list
 
 Definition config_site (sites: list site) (c: nat) : option (nat * site) := find_idx (is_config_of c) sites 0.
 
-Fixpoint find_map {A B} (f: A -> option B) (l: list A) : option B :=
-  match l with
-  | [] => None
-  | a :: r => match f a with Some b => Some b | None => find_map f r end
-  end.
+Definition keys := list (nat * tag).
+
+(* the value found under a discriminator key of the input: hashable (an abstract tag) or not (a list, a dict) *)
+Inductive tagv := Hashable (t: tag) | Unhashable.
+Definition inkeys := list (nat * tagv).
 
 Inductive op :=
-| Define (parents: list nat) (own_tags: list (nat * tag)) (tagger_tags: list tag) (own_req: list nat)
-| Decode (site_id: nat) (keys: list (nat * tag)) (present: list nat).
-(* [keys]: the discriminator keys PRESENT in the input with their values (a key present with a falsy value or None
-   is present); [present]: the other fields present (no-field mode acceptance) *)
+| Define (parents: list nat) (own_tags: keys) (tagger_tags: list (nat * list tag)) (own_req: list nat) (kerr: bool)
+| Decode (site_id: nat) (inp: inkeys) (present: list nat)
+| DecodeSeq (fields: list (nat * inkeys * list nat))
+| DecodeBad (site_id: nat).     (* the input is not a mapping (a list, a number, a string, None) *)
+(* [inp]: the discriminator keys PRESENT in the input with their values (a key present with a falsy value or None
+   is present); [present]: the other fields present.  DecodeSeq = ONE from_dict call of a holder with several
+   discriminated fields: (site, its sub-input) in field order; the first failing field raises. *)
 
-Inductive outcome := OInst (c: nat) | OMissing | ONotFound | OBadSite.
+(* what `cls.from_dict(value)` of a class WITHOUT class-level discriminator does *)
+Inductive verdict := VAccept | VReject | VKeyError.
+
+Inductive outcome :=
+| OInst (c: nat)
+| OMissing                 (* MissingDiscriminatorError *)
+| ONotFound                (* SuitableVariantNotFoundError *)
+| OBadSite
+| ORej (c: nat)            (* the selected class rejects the input (MissingField / InvalidFieldValue of class c surfaces) *)
+| OKeyErr (c: nat)         (* a KeyError leaving class c's from_dict; never leaves a dispatcher (internal) *)
+| OMany (cs: list nat)     (* all fields of a DecodeSeq succeeded *)
+| ONotDict.                (* ValueError "Argument for ... discriminated by ... should be a dict instance" *)
 
 Definition st0 : st := St [] [].
 
 Section Step.
-  (* does class k accept an input with the given present fields? (abstract in the theorems) *)
-  Variable acc : cls -> list nat -> bool.
+  (* what does class k do with an input that has the given fields? (abstract in the theorems) *)
+  Variable acc : cls -> list nat -> verdict.
   Variable sites : list site.
 
-  Definition define (cl: list cls) (ps: list nat) (tg: list (nat * tag)) (tu rq: list nat) : cls :=
+  Definition define (cl: list cls) (ps: list nat) (tg: keys) (tu: list (nat * list tag)) (rq: list nat) (ke: bool) : cls :=
     let ps' := filter (fun p => p <? length cl) ps in
-    Cls ps' tg tu (rq ++ flat_map (fun p => c_req (nth p cl dummy_cls)) ps').
+    Cls ps' tg tu (rq ++ flat_map (fun p => c_req (nth p cl dummy_cls)) ps')
+        (ke || existsb (fun p => c_kerr (nth p cl dummy_cls)) ps').
 
-  (* Generated dispatcher with registry key k and settings s.  `registry[tag].from_dict(value)` enters the
-     chosen class: a class that declares its own class-level discriminator is a dispatcher again
-     (over its strict subclasses, with its own registry); any other class yields an instance. *)
-  Fixpoint dispatch (fuel: nat) (top: nat) (codec: bool) (k: rkey) (s: site) (x: st) (inp: list (nat * tag)) (t: tag) : st * outcome :=
+  Definition leaf (cl: list cls) (c: nat) (present: list nat) : outcome :=
+    match acc (nth c cl dummy_cls) present with
+    | VAccept => OInst c
+    | VReject => ORej c
+    | VKeyError => OKeyErr c
+    end.
+
+  (* `variant.from_dict(value)` ENTERS a class: a class that declares its own class-level discriminator is a
+     dispatcher again (over its strict subclasses, own registry, own mode and key: [rec]); any other class is a leaf. *)
+  Definition enter_with (rec: rkey -> site -> st -> st * outcome) (top: nat) (codec: bool) (present: list nat)
+                        (x: st) (c: nat) : st * outcome :=
+    match config_site sites c with
+    | None => (x, leaf (classes x) c present)
+    | Some (j, sj) => rec (if codec then (top, S c) else (j, 0)) sj x
+    end.
+
+  (* except (KeyError, AttributeError): refill the registry, retry, `except KeyError` -> SuitableVariantNotFound *)
+  Definition refill_retry (enter: st -> nat -> st * outcome) (top: nat) (codec: bool) (k: rkey) (s: site) (t: tag)
+                          (x0: st) : st * outcome :=
+    let r' := refill (classes x0) s (get_reg k (regs x0)) in
+    (* a codec compiles every registered variant afresh on each refill (new AttrsHolder):
+       the registries of their nested class-level dispatchers start empty again *)
+    let rs := if codec then reset_nested top (built (classes x0) s) (regs x0) else regs x0 in
+    let x' := St (classes x0) ((k, r') :: rs) in
+    match reg_get t r' with
+    | Some c => let (x2, o) := enter x' c in
+                match o with OKeyErr _ => (x2, ONotFound) | _ => (x2, o) end
+    | None => (x', ONotFound)
+    end.
+
+  (* field mode, key present with value t *)
+  Definition field_body (enter: st -> nat -> st * outcome) (top: nat) (codec: bool) (k: rkey) (s: site) (t: tag)
+                        (x: st) : st * outcome :=
+    match reg_get t (get_reg k (regs x)) with
+    | Some c => let (x1, o) := enter x c in                       (* try: return registry[tag].from_dict(value) *)
+                match o with OKeyErr _ => refill_retry enter top codec k s t x1 | _ => (x1, o) end
+    | None => refill_retry enter top codec k s t x
+    end.
+
+  (* no-field mode: for variant in variants: try: return variant.from_dict(value) / except Exception: pass *)
+  Fixpoint loop_body (enter: st -> nat -> st * outcome) (vs: list nat) (x: st) : st * outcome :=
+    match vs with
+    | [] => (x, ONotFound)
+    | v :: r => let (x1, o) := enter x v in
+                match o with OInst c => (x1, OInst c) | _ => loop_body enter r x1 end
+    end.
+
+  (* The generated dispatcher with registry key k and settings s (unpack.py:359-469), both modes. *)
+  Fixpoint dispatcher (fuel: nat) (top: nat) (codec: bool) (k: rkey) (s: site) (x: st)
+                      (inp: inkeys) (present: list nat) : st * outcome :=
     match fuel with
     | 0 => (x, OBadSite)
     | S f =>
         if negb (site_ok s (length (classes x))) then (x, OBadSite) else
-        let enter (x: st) (c: nat) : st * outcome :=
-          match config_site sites c with
-          | None => (x, OInst c)
-          | Some (j, sj) =>
-              if s_field sj then
-                match assoc (s_fid sj) inp with
-                | None => (x, OMissing)  (* inner `value[field]` -> MissingDiscriminatorError: a LookupError but NOT a KeyError,
-                                            so the outer `except (KeyError, AttributeError)` lets it through *)
-                | Some t' => dispatch f top codec (if codec then (top, S c) else (j, 0)) sj x inp t'
-                end
-              else (x, ONotFound)        (* not generated: a no-field dispatcher below a field one *)
-          end in
-        let r := get_reg k (regs x) in
-        match reg_get t r with
-        | Some c => enter x c                                       (* try: return registry[tag].from_dict(value) *)
-        | None =>
-            let r' := refill (classes x) s r in                     (* except KeyError: refill ... *)
-            (* a codec compiles every registered variant afresh on each refill (new AttrsHolder):
-               the registries of their nested class-level dispatchers start empty again *)
-            let rs := if codec then reset_nested top (built (classes x) s) (regs x) else regs x in
-            let x' := St (classes x) ((k, r') :: rs) in
-            match reg_get t r' with
-            | Some c => enter x' c                                  (* ... retry *)
-            | None => (x', ONotFound)                               (* SuitableVariantNotFoundError *)
-            end
-        end
+        let enter := enter_with (fun k' s' x' => dispatcher f top codec k' s' x' inp present) top codec present in
+        if s_field s then
+          match assoc (s_fid s) inp with
+          | None => (x, OMissing)                                   (* value[field] -> KeyError -> MissingDiscriminatorError *)
+          | Some Unhashable => (x, ONotFound)                       (* hash(tag) -> TypeError: no variant can carry it; no lookup, no refill *)
+          | Some (Hashable t) => field_body enter top codec k s t x
+          end
+        else loop_body enter (variants (classes x) s) x
     end.
 
-  (* no-field mode: `variant.from_dict(value)` of a class with its own (no-field) class-level
-     discriminator succeeds iff one of its strict subclasses does, and returns that instance *)
-  Fixpoint try_cls (fuel: nat) (cl: list cls) (present: list nat) (c: nat) : option nat :=
-    match fuel with
-    | 0 => None
-    | S f =>
-        match config_site sites c with
-        | None => if acc (nth c cl dummy_cls) present then Some c else None
-        | Some (_, sj) =>
-            if s_field sj then None      (* not generated: MissingDiscriminatorError is swallowed by `except Exception` *)
-            else if negb (site_ok sj (length cl)) then None
-            else find_map (try_cls f cl present) (variants cl sj)
-        end
+  Definition decode1 (x: st) (i: nat) (inp: inkeys) (present: list nat) : st * outcome :=
+    match nth_error sites i with
+    | None => (x, OBadSite)
+    | Some s => dispatcher (S (S (length (classes x)))) i (s_codec s) (i, 0) s x inp present
     end.
 
-  Definition decode_nofield (s: site) (x: st) (present: list nat) : outcome :=
-    match find_map (try_cls (S (length (classes x))) (classes x) present) (variants (classes x) s) with
-    | Some c => OInst c
-    | None => ONotFound
+  (* a non-mapping input: `value[field]` raises TypeError -> ValueError; in no-field mode every variant rejects it *)
+  Definition decode_bad (x: st) (i: nat) : outcome :=
+    match nth_error sites i with
+    | None => OBadSite
+    | Some s => if negb (site_ok s (length (classes x))) then OBadSite
+                else if s_field s then ONotDict else ONotFound
+    end.
+
+  Fixpoint decode_seq (x: st) (l: list (nat * inkeys * list nat)) (done: list nat) : st * outcome :=
+    match l with
+    | [] => (x, OMany (rev done))
+    | (i, inp, present) :: r =>
+        let (x1, o) := decode1 x i inp present in
+        match o with
+        | OInst c => decode_seq x1 r (c :: done)
+        | _ => (x1, o)                                               (* the first failing field raises *)
+        end
     end.
 
   Definition step (x: st) (o: op) : st * option outcome :=
     match o with
-    | Define ps tg tu rq => (St (classes x ++ [define (classes x) ps tg tu rq]) (regs x), None)
-    | Decode i inp present =>
-        match nth_error sites i with
-        | None => (x, Some OBadSite)
-        | Some s =>
-            if negb (site_ok s (length (classes x))) then (x, Some OBadSite)
-            else if s_field s then
-              match assoc (s_fid s) inp with
-              | None => (x, Some OMissing)                    (* value[field] -> KeyError *)
-              | Some t => let (x', o) := dispatch (S (S (length (classes x)))) i (s_codec s) (i, 0) s x inp t in (x', Some o)
-              end
-            else (x, Some (decode_nofield s x present))
-        end
+    | Define ps tg tu rq ke => (St (classes x ++ [define (classes x) ps tg tu rq ke]) (regs x), None)
+    | Decode i inp present => let (x', o) := decode1 x i inp present in (x', Some o)
+    | DecodeSeq l => let (x', o) := decode_seq x l [] in (x', Some o)
+    | DecodeBad i => (x, Some (decode_bad x i))
     end.
 
   Definition final (ops: list op) : st := fold_left (fun x o => fst (step x o)) ops st0.
@@ -247,11 +293,15 @@ End Step.
 (* classes defined by a history: independent of the Decode events and of the sites *)
 Definition defs (ops: list op) : list cls :=
   fold_left (fun cl o => match o with
-                         | Define ps tg tu rq => cl ++ [define cl ps tg tu rq]
-                         | Decode _ _ _ => cl end) ops [].
+                         | Define ps tg tu rq ke => cl ++ [define cl ps tg tu rq ke]
+                         | _ => cl end) ops [].
 
-(* concrete acceptance used by the correspondence: every required field is present *)
-Definition acc_req (k: cls) (present: list nat) : bool := forallb (fun f => memb f present) (c_req k).
+(* concrete acceptance used by the correspondence: the hook raises KeyError on the marker field, else every
+   required field must be present *)
+Definition kerr_marker : nat := 999.
+Definition acc_req (k: cls) (present: list nat) : verdict :=
+  if c_kerr k && memb kerr_marker present then VKeyError
+  else if forallb (fun f => memb f present) (c_req k) then VAccept else VReject.
 
 (* computable domain predicate: at most one eligible class carries tag t *)
 Definition carriers (cl: list cls) (s: site) (t: tag) : list nat :=
@@ -260,10 +310,19 @@ Definition carriers (cl: list cls) (s: site) (t: tag) : list nat :=
 Definition tag_uniqueb (cl: list cls) (s: site) (t: tag) : bool := length (carriers cl s t) <=? 1.
 
 (* ---- comparison helpers for harness-generated case files ---- *)
+Fixpoint list_eqb {A} (e: A -> A -> bool) (a b: list A) : bool :=
+  match a, b with
+  | [], [] => true
+  | x :: a', y :: b' => e x y && list_eqb e a' b'
+  | _, _ => false
+  end.
+
 Definition outcome_eqb (a b: outcome) : bool :=
   match a, b with
-  | OInst x, OInst y => Nat.eqb x y
+  | OInst x, OInst y | ORej x, ORej y | OKeyErr x, OKeyErr y => Nat.eqb x y
   | OMissing, OMissing | ONotFound, ONotFound | OBadSite, OBadSite => true
+  | OMany x, OMany y => list_eqb Nat.eqb x y
+  | ONotDict, ONotDict => true
   | _, _ => false
   end.
 
@@ -274,26 +333,21 @@ Definition oout_eqb (a b: option outcome) : bool :=
   | _, _ => false
   end.
 
-Fixpoint list_eqb {A} (e: A -> A -> bool) (a b: list A) : bool :=
-  match a, b with
-  | [], [] => true
-  | x :: a', y :: b' => e x y && list_eqb e a' b'
-  | _, _ => false
-  end.
-
 (* uniqueness flag of every Decode event of a field site, at the time of the event *)
 Fixpoint uniq_flags (sites: list site) (cl: list cls) (ops: list op) : list (option bool) :=
   match ops with
   | [] => []
-  | Define ps tg tu rq :: r => None :: uniq_flags sites (cl ++ [define cl ps tg tu rq]) r
+  | Define ps tg tu rq ke :: r => None :: uniq_flags sites (cl ++ [define cl ps tg tu rq ke]) r
   | Decode i inp _ :: r =>
       (match nth_error sites i with
        | Some s => match assoc (s_fid s) inp with
-                   | Some t => if s_field s then Some (tag_uniqueb cl s t) else None
-                   | None => None
+                   | Some (Hashable t) => if s_field s then Some (tag_uniqueb cl s t) else None
+                   | _ => None
                    end
        | None => None
        end) :: uniq_flags sites cl r
+  | DecodeSeq _ :: r => None :: uniq_flags sites cl r
+  | DecodeBad _ :: r => None :: uniq_flags sites cl r
   end.
 
 Definition obool_eqb (a b: option bool) : bool :=
